@@ -238,4 +238,10 @@ def _serialize_region_ds9(region, precision=8):
 
     region_meta = _translate_metadata_to_ds9(region, shape)
 
+    # an excluded region is marked with a leading "-", which is where
+    # the parser (and DS9) looks; "include" in a global line cannot
+    # express it
+    if not region_meta.get('include', True):
+        region_str = f'-{region_str}'
+
     return {'frame': frame, 'region': region_str, 'meta': region_meta}
